@@ -1,8 +1,8 @@
 """C16: concurrent unified reads (ociunify, ReadConcurrent) are leak-free for every answer order and cancellation.
 
 Model: OciUnifyConc.tla (PlusCal, translated with pcal): main, two senders, two environment members
-(ok/fail x normal/returns-only-after-cancellation), a caller that cancels at any point and closes the
-returned reader at any later point.  TLC checks all interleavings of all 32 configurations for
+(ok/fail x normal/returns-only-after-cancellation x reader Close ok/error), a caller that cancels at any point and closes the
+returned reader at any later point.  TLC checks all interleavings of all 52 configurations for
 ReturnsFirstSuccess, ErrorOnlyIfBothFailOrCancelled, WinnerCtxLiveUntilClose, ResolveCancelsAtReturn
 (invariants) and LoserClosed, NoBlockedGoroutine, AllCtxReleased, CallReturns (liveness under weak
 fairness).  Direction A: TLC prints every complete environment schedule (OciUnifyConcGen); the harness
@@ -77,6 +77,8 @@ def count(ctx, uniq):
                 k = 'returned ' + e['ret']
             elif op == 'act':
                 k = 'environment: ' + e['a']
+            elif op == 'closed':
+                k = 'reader Close returned its error to the caller' if e['closeerr'] else 'reader closed cleanly'
             elif op == 'final':
                 k = 'quiescence reached' if e['leaked'] == 0 else 'goroutines left inside ociunify'
             else:
@@ -112,8 +114,8 @@ def run(ctx):
     with cf.ThreadPoolExecutor(max_workers=3) as ex:
         # 1. the design, all interleavings, safety and liveness
         fmc = ex.submit(once_more, vlib.model_check, ctx, 'OciUnifyConc.tla', 'OciUnifyConcMC.cfg', 4, 600,
-                        '32 configurations (outcomes x member modes x reader/resolve style), all interleavings incl. caller cancel/close at any point; '
-                        '7 invariant clauses and 4 liveness properties under weak fairness')
+                        '52 configurations (outcomes x member modes x reader/resolve style x Close of each reader ok/error), all interleavings incl. caller cancel/close at any point; '
+                        '8 invariant clauses and 4 liveness properties under weak fairness')
         # 2. direction A: every complete environment schedule of the model
         time.sleep(0.2)   # Ctx.sub numbers its directories without a lock
         fgen = ex.submit(once_more, vlib.generate, ctx, 'OciUnifyConcGen.tla', 'OciUnifyConcGen.cfg')
@@ -158,14 +160,14 @@ def run(ctx):
     ctx.cov['distinct_recorded_runs'] = len(uniq)
     ctx.cov['race_detector'] = not quick
     sit = ctx.cov['situations']
-    for need in tuple('runs of ' + e for e in ('GetBlob', 'GetBlobRange', 'GetManifest', 'ResolveBlob', 'ResolveManifest')) + ('returned ok0', 'returned ok1', 'returned err', 'returned cancelled', 'environment: close', 'environment: cancel', 'quiescence reached'):
+    for need in tuple('runs of ' + e for e in ('GetBlob', 'GetBlobRange', 'GetManifest', 'ResolveBlob', 'ResolveManifest')) + ('returned ok0', 'returned ok1', 'returned err', 'returned cancelled', 'environment: close', 'environment: cancel', 'reader Close returned its error to the caller', 'reader closed cleanly', 'quiescence reached'):
         if not sit.get(need):
             raise vlib.Machinery('the batch never reached the situation %r' % need)
     first = next(iter(uniq)).split('\n')
     ctx.cov['samples'] = [dict(tlc_exported_schedules=scheds[:3]), dict(recorded_run=[json.loads(l) for l in first if '"tau"' not in l])]
     # 4. TLC validates every distinct recorded run against the model
     judge(ctx, [ut], shard_lines=5000 if quick else 8000, label='ociunify concurrent reads vs OciUnifyConc')
-    ctx.assumptions += ['fake members built on ociregistry.Funcs: a call parks on a gate (or on its context), records the context it was given, hands out a close-counting reader',
+    ctx.assumptions += ['fake members built on ociregistry.Funcs: a call parks on a gate (or on its context), records the context it was given, hands out a close-counting reader whose Close returns a scripted error or nil',
                         'goroutines still inside ociunify are counted from runtime.Stack (frames or creator in package ociunify) after waiting up to 5 s for them to finish',
                         'each internal step of the model (main, sender) is one channel operation of the code; what lies between sets monotone flags only',
                         'TLC, pcal and the Json/IOUtils community modules']
@@ -173,7 +175,7 @@ def run(ctx):
                        'caller close); each is replayed on ociunify.New(fake0, fake1, ReadConcurrent) for GetBlob, GetBlobRange, GetManifest (reader style) or '
                        'ResolveBlob, ResolveManifest (resolve style), once waiting for the system to react after each action and once not; the trace holds the actions '
                        'performed and the observations (answer returned and by which member, context state of the members main heard from, reader close counts, '
-                       'after Close: closed once and context cancelled, at quiescence: every reader/context and the number of goroutines inside ociunify); TLC accepts '
+                       'after Close: closed once, the scripted Close error of the reader passed through, context cancelled whatever Close returned, at quiescence: every reader/context and the number of goroutines inside ociunify); TLC accepts '
                        'a run iff some behaviour of the model with that order of environment actions shows exactly these observations')
 
 
